@@ -19,5 +19,10 @@ CORPUS = [
     T('c02-zeros-column', TL, "            torch.ones(mats[..., :tip_count, :, :, :].shape[:-1] + (1,)),\n        ),\n        -1,\n    )\n\n    scalers = []",
       "            torch.zeros(mats[..., :tip_count, :, :, :].shape[:-1] + (1,)),\n        ),\n        -1,\n    )\n\n    scalers = []",
       expect=[('C02.M', 'calculate_treelikelihood_tip_states_discrete_rescaled::unknown-state-column')]),
+    T('c02-definite-by-upper-in-states', DT, "string not in 'ACGTUacgtu'", "string.upper() not in self.states", expect=[('C02.M', 'NucleotideDataType::definite-symbol-literal')]),
+    T('c02-gather-row-transposed', TL, "            p_left = mat_tips[..., left, :, :, partials[left]]\n        else:\n            p_left = mats[..., left, :, :, :] @ partials[left]\n\n        if right < tip_count:\n            p_right = mat_tips[..., right, :, :, partials[right]]\n        else:\n            p_right = mats[..., right, :, :, :] @ partials[right]\n\n        partials[node] = p_left * p_right\n",
+      "            p_left = mat_tips[..., left, :, partials[left], :].transpose(-1, -2)\n        else:\n            p_left = mats[..., left, :, :, :] @ partials[left]\n\n        if right < tip_count:\n            p_right = mat_tips[..., right, :, :, partials[right]]\n        else:\n            p_right = mats[..., right, :, :, :] @ partials[right]\n\n        partials[node] = p_left * p_right\n",
+      expect=[('C02.M', 'calculate_treelikelihood_tip_states_discrete::unknown-state-column')]),
+    T('c02-benign-definite-by-encoding', DT, "string not in 'ACGTUacgtu'", "self.encoding(string) >= 4", benign=True),
     T('c02-benign-literal-order', DT, "string not in 'ACGTUacgtu'", "string not in 'acgtuACGTU'", benign=True),
 ]
